@@ -286,3 +286,50 @@ Lemma upc_not_started (cert : Type) (chains_to : ca_pool -> cert -> bool)
 Proof.
   unfold upc_exchange_ok. destruct (upc_init_upstream c); [discriminate|reflexivity..].
 Qed.
+
+(* ------------------------------------------------------------------ round 4: the HTTP Host / :authority *)
+
+(* default ports are ports of the grammar: "the default port written out" is inside every theorem's hypotheses *)
+Lemma default_port_wf sc : wf_port (default_port sc) = true.
+Proof. destruct sc; reflexivity. Qed.
+
+(* For EVERY spelling x every address of the grammar (IPv6 literal with any port — the scheme's default included) x
+   ANY dial_addr: the Host of a DoH upstream is the URL authority exactly as written, brackets and port included;
+   the other transports have none; the TLS server name is the bare host. *)
+Lemma http_host_any st k h p path d :
+  scheme_spelling st k -> wf_path path = true -> wf_host h = true -> wf_port_opt p = true ->
+  let sc := fst (fst k) in
+  exists ep, endpoint_of (url_of (Some st) h p path) d = Ok ep /\
+    ep_host ep = (if uses_http sc then Some (authority h p) else None) /\
+    ep_sni ep = (if uses_tls sc then Some (host_name h) else None).
+Proof.
+  intros Hsp Wpath W Wp sc. eexists. split; [apply (endpoint_of_spelling st k h p path d Hsp W Wp Wpath)|].
+  unfold endpoint_core. cbn [ep_host ep_sni].
+  destruct (url_host_facts h p (default_port (fst (fst k))) W Wp) as [_ Hs]. rewrite Hs. split; reflexivity.
+Qed.
+
+(* ... in particular with the scheme's default port written out: it stays in the Host *)
+Lemma http_host_default_port st k h path d :
+  scheme_spelling st k -> uses_http (fst (fst k)) = true -> wf_path path = true -> wf_host h = true ->
+  let sc := fst (fst k) in
+  exists ep, endpoint_of (url_of (Some st) h (Some (default_port sc)) path) d = Ok ep /\
+    ep_host ep = Some (host_text h ++ ch_colon :: default_port sc).
+Proof.
+  intros Hsp Hh Wpath W sc.
+  destruct (http_host_any st k h (Some (default_port sc)) path d Hsp Wpath W (default_port_wf sc)) as (ep & He & Hho & _).
+  exists ep. split; [exact He|]. subst sc. cbv zeta in Hho. rewrite Hho, Hh. reflexivity.
+Qed.
+
+(* ... and the same through the router's mapping (initUpstream) *)
+Lemma upc_http_host st k h p path tag da o :
+  scheme_spelling st k -> wf_path path = true -> wf_host h = true -> wf_port_opt p = true ->
+  tag <> [] -> (o_verify_client o = true -> o_ca o = true) ->
+  let sc := fst (fst k) in
+  exists u,
+    upc_init_upstream {| upc_tag := tag; upc_addr := url_of (Some st) h p path; upc_dial_addr := da; upc_tls := o |} = Ok u /\
+    ep_host (uu_ep u) = (if uses_http sc then Some (authority h p) else None).
+Proof.
+  intros Hsp Wpath W Wp Ht Hv sc.
+  destruct (upc_init_spelling st k h p path tag da o Hsp Wpath W Wp Ht Hv) as (t & _ & Hu).
+  eexists. split; [exact Hu|]. reflexivity.
+Qed.
